@@ -3,6 +3,7 @@ package main
 // Symbolic execution of statements.
 
 import (
+	"sort"
 	"fmt"
 	"go/ast"
 	"go/token"
@@ -952,14 +953,16 @@ func (fv *FuncVerifier) havocDiff(st *State, before *State, after []*State) (var
 			allocCh = true
 		}
 	}
-	for k := range changedV {
+	// (sorted: the numbering of fresh names must not depend on map iteration order -- the text of a query, and with
+	// it the solver's luck, would differ from run to run)
+	for _, k := range sortedObjs(changedV) {
 		if fv.boxed[k] {
 			continue
 		}
 		st.vars[k] = fv.freshTyped(k.Name(), k.Type(), st)
 		vars = append(vars, k)
 	}
-	for h := range changedH {
+	for _, h := range sortedKeys(changedH) {
 		fv.heapOf(st, h)
 		st.heaps[h] = fv.fresh(h, fv.eng.sc.heaps[h])
 		heaps = append(heaps, h)
@@ -969,7 +972,7 @@ func (fv *FuncVerifier) havocDiff(st *State, before *State, after []*State) (var
 			fv.heapClosure(h, st.heaps[h], st.alloc)
 		}
 	}()
-	for g := range changedG {
+	for _, g := range sortedKeys(changedG) {
 		if strings.HasPrefix(g, "$") {
 			continue
 		}
@@ -1264,4 +1267,27 @@ func (fv *FuncVerifier) bindLets(st *State, cls []Clause, pos token.Pos) {
 	if len(errs) > 0 {
 		fv.unsupported("spec errors in let: " + strings.Join(errs, "; "))
 	}
+}
+
+func sortedKeys(m map[string]bool) []string {
+	ks := make([]string, 0, len(m))
+	for k := range m {
+		ks = append(ks, k)
+	}
+	sort.Strings(ks)
+	return ks
+}
+
+func sortedObjs(m map[types.Object]bool) []types.Object {
+	ks := make([]types.Object, 0, len(m))
+	for k := range m {
+		ks = append(ks, k)
+	}
+	sort.Slice(ks, func(i, j int) bool {
+		if ks[i].Name() != ks[j].Name() {
+			return ks[i].Name() < ks[j].Name()
+		}
+		return ks[i].Pos() < ks[j].Pos()
+	})
+	return ks
 }
